@@ -2,7 +2,7 @@
 under the rule names of one property; each is written against the property statement."""
 from worlds.chartgen import INNER, topology_class
 
-ACTIONS = ('decline', 'hook', 'trans', 'exit', 'entry', 'init')
+ACTIONS = ('decline', 'hook', 'swallow', 'trans', 'exit', 'entry', 'init')
 CALLSIG = {'ENTRY_SIGNAL': 'ENTRY', 'EXIT_SIGNAL': 'EXIT', 'INIT_SIGNAL': 'INIT'}
 
 
@@ -368,6 +368,9 @@ class SpyModel(object):
         elif op == 'defer':
           out.append('POST_DEFERRED:%s' % cur_sig)
           self.deferred.append(cur_sig)
+        elif op == 'defer_new':
+          out.append('POST_DEFERRED:%s' % sig)
+          self.deferred.append(sig)
         elif op == 'recall':
           if self.deferred:
             s = self.deferred.pop(0)
@@ -520,15 +523,16 @@ def check_trace(run, res):
         return
       tr = [t[:3] for t in ob.trace]
       start_state = ob.op[1]
-      first_ok = tr[:1] in ([('top', None, fname(run, p['new']))], [('top', None, fname(run, start_state))])
-      if not first_ok:
-        res.violate('trace-start', {}, 'after start_at(%s) the trace is %s, expected one record top -> %s' % (start_state, tr, p['new']))
-        return
-      # steps the active object already took
-      exp = tr[:1]
+      # steps the active object already took follow the start record (the ring keeps the newest TRC records)
+      more = []
       for s in (p.get('steps') or []):
         if s and s['kind'] == 'trans':
-          exp.append((fname(run, s['prev']), s['sig'], fname(run, s['new'])))
+          more.append((fname(run, s['prev']), s['sig'], fname(run, s['new'])))
+      firsts = [('top', None, fname(run, p['new'])), ('top', None, fname(run, start_state))]
+      if len(more) + 1 <= TRC and tr[:1] not in ([firsts[0]], [firsts[1]]):
+        res.violate('trace-start', {}, 'after start_at(%s) the trace is %s, expected one record top -> %s' % (start_state, tr, p['new']))
+        return
+      exp = ([tr[0]] if len(more) + 1 <= TRC else [firsts[0]]) + more
       if tr != exp[-TRC:]:
         res.violate('trace-step', {'kind': 'after-start'}, 'after start_at the trace is %s, expected %s' % (tr, exp))
         return
